@@ -183,7 +183,7 @@ func c07Paths(r *rng, c *pgCompiled, root *pgVal) (valid []c07Path, absent []c07
 		// declared but absent field; undeclared number
 		if m != nil {
 			for _, f := range m.Fields {
-				if !present[f.Num] && r.chance(35) {
+				if !present[f.Num] && (r.chance(35) || len(v.Fields) == 0) {
 					absent = append(absent, c07Path{Steps: cp(prefix, c07Step{Kind: 1, Num: f.Num, Name: f.Name}), F: f})
 				}
 			}
@@ -378,6 +378,10 @@ func genC07(r *rng, n int) {
 			produced++
 			vr := r.fork()
 			val := genProtoValue(vr, c, s.Root, 0)
+			// boundary class: the EMPTY root message (zero bytes): every declared field is then queried as absent
+			if vr.chance(8) {
+				val = &pgVal{Tag: 1, Kind: pgKMessage}
+			}
 			bs, err := c.encodeRef(val, s.Root)
 			if err != nil {
 				die("C07: reference encode: %v", err)
